@@ -41,7 +41,8 @@ struct Plan {
 }
 
 fn gen_plan(rng: &mut Rng, pool: &Pool) -> Plan {
-    let n = *rng.pick(&[0usize, 1, 1, 2, 2, 3, 3, 4, 5, 6, 8, 12]);
+    // mostly short histories; one in ~25 is long (more guards than small-vector / small-sort thresholds)
+    let n = *rng.pick(&[0usize, 1, 1, 2, 2, 3, 3, 4, 5, 6, 8, 12, 0, 1, 2, 3, 4, 5, 6, 8, 12, 2, 3, 40, 72]);
     // repetition: with probability 1/2 draw targets from a small subset so that the same target is
     // installed twice, three, five times
     let subset: Vec<usize> = if rng.chance(1, 2) {
@@ -78,7 +79,7 @@ fn class_of(p: &Plan, pool: &Pool) -> String {
         fams.insert(if t.synthetic { "synth".to_string() } else { format!("{:?}", t.fam) });
     }
     let maxrep = per.values().cloned().max().unwrap_or(0);
-    format!("kinds={:?}/maxrep={}/exit={:?}/targets={}", kinds, maxrep.min(5), p.exit, fams.len().min(4))
+    format!("kinds={:?}/maxrep={}/exit={:?}/targets={}{}", kinds, maxrep.min(5), p.exit, fams.len().min(4), if p.steps.len() > 32 { "/long" } else { "" })
 }
 
 struct Mons {
@@ -114,6 +115,8 @@ struct World {
     lifetimes: u64,
     slot_lens: BTreeSet<usize>,
     under_valgrind: bool,
+    reuse_canary: Option<(Arena, u8)>,
+    reuse_canaries_checked: u64,
 }
 
 fn exec_anon_pages() -> BTreeSet<usize> {
@@ -192,6 +195,8 @@ pub fn run(ctx: &Ctx) {
         lifetimes: 0,
         slot_lens: BTreeSet::new(),
         under_valgrind: ctx.get_u("valgrind", 0) == 1,
+        reuse_canary: None,
+        reuse_canaries_checked: 0,
     };
     // warm-up lifetime so that lazily created process state (thread-local storage, allocator arenas)
     // exists before the baselines are taken
@@ -397,6 +402,7 @@ fn summary_json(w: &World, decided: u64) -> J {
         .n("ledger_checks", w.ledger_checks)
         .n("maps_page_set_checks", w.maps_checks)
         .n("canaries", w.canaries.len())
+        .n("canaries_placed_at_freed_trampoline_addresses_and_checked", w.reuse_canaries_checked)
         .o("counters", ip::counters_json())
 }
 
@@ -696,6 +702,25 @@ fn lifetime(w: &mut World, mons: &Mons, p: &Plan, rng: &mut Rng) -> (Verdict, St
         }
     }
     if mons.c12 {
+        // a foreign mapping placed exactly where a trampoline of the PREVIOUS lifetime used to be must
+        // survive this lifetime untouched (nothing the injector did not allocate is ever unmapped/replaced)
+        if let Some((ar, pat)) = w.reuse_canary.take() {
+            let ok = maps::read_vec(ar.base, PAGE).map(|b| b.iter().all(|x| *x == pat)).unwrap_or(false);
+            let still_rw = maps::parse().iter().any(|m| m.start <= ar.base && ar.base < m.end && !m.x());
+            if !ok || !still_rw {
+                return (Verdict::Violated, "c12:foreign-mapping-at-a-freed-trampoline-address-was-replaced".into(), detail.x("canary", ar.base).b("content_intact", ok).b("still_non_executable", still_rw));
+            }
+            w.reuse_canaries_checked += 1;
+        }
+        if let Some(&(a, l)) = lib_maps.last() {
+            if w.lifetimes % 3 == 0 && maps::is_free(a, page_ceil(l)) {
+                if let Some(ar) = Arena::map_at(a, PAGE, RW) {
+                    let pat = 0xAB;
+                    ar.fill(pat);
+                    w.reuse_canary = Some((ar, pat));
+                }
+            }
+        }
         w.ledger_checks += 1;
         let an = ip::A_FOREIGN_UNMAP.load(Ordering::SeqCst) + ip::A_LEN_MISMATCH.load(Ordering::SeqCst);
         if an != anomalies0 {
